@@ -1517,7 +1517,9 @@ func (e *Enc) closesOnlyField(v ssa.Value) bool {
 // ever sent and which does not escape: its only uses here and in the closures capturing it are
 // receives, select receive arms and close. A completed receive then means another thread closed it.
 func (e *Enc) localClosesOnly(v ssa.Value) bool {
-	okUse := func(val ssa.Value, in ssa.Instruction) bool {
+	var okUse func(val ssa.Value, in ssa.Instruction) bool
+	passDepth := 0
+	okUse = func(val ssa.Value, in ssa.Instruction) bool {
 		switch u := in.(type) {
 		case *ssa.UnOp:
 			return u.Op == token.ARROW
@@ -1530,6 +1532,27 @@ func (e *Enc) localClosesOnly(v ssa.Value) bool {
 			return true
 		case ssa.CallInstruction:
 			if b, ok := u.Common().Value.(*ssa.Builtin); ok && b.Name() == "close" {
+				return true
+			}
+			// handed to a module function (called or started as a goroutine) that itself only receives from it or
+			// closes it
+			if callee := u.Common().StaticCallee(); callee != nil && len(callee.Blocks) > 0 && !u.Common().IsInvoke() && passDepth < 2 {
+				for i, a := range u.Common().Args {
+					if a != val {
+						continue
+					}
+					if i >= len(callee.Params) || callee.Params[i].Referrers() == nil {
+						return false
+					}
+					passDepth++
+					for _, r := range *callee.Params[i].Referrers() {
+						if !okUse(callee.Params[i], r) {
+							passDepth--
+							return false
+						}
+					}
+					passDepth--
+				}
 				return true
 			}
 			return false
@@ -1640,6 +1663,28 @@ func capturedPrivateChan(fv *ssa.FreeVar) bool {
 	return false
 }
 
+// paramPrivateChan: p is a channel parameter of a module function that every static call or go statement in the module
+// supplies with a channel made locally in the caller and only received from / closed (there and here).
+func (pr *Prog) paramPrivateChan(fn *ssa.Function, idx int) bool {
+	sites := 0
+	var e0 Enc
+	for _, f := range pr.funcs {
+		for _, b := range f.Blocks {
+			for _, ins := range b.Instrs {
+				ci, ok := ins.(ssa.CallInstruction)
+				if !ok || ci.Common().StaticCallee() != fn || ci.Common().IsInvoke() {
+					continue
+				}
+				sites++
+				if idx >= len(ci.Common().Args) || !e0.localClosesOnly(ci.Common().Args[idx]) {
+					return false
+				}
+			}
+		}
+	}
+	return sites > 0
+}
+
 // recvClosed: a completed receive from ch (a closes-only channel) means ch has been closed.
 func (e *Enc) recvClosed(chv ssa.Value, guard Term) {
 	name := "G$closedchans"
@@ -1711,6 +1756,11 @@ func (e *Enc) onSelect(x *ssa.Select, idx Term) {
 		if err := e.conditionally(Eq(idx, IntLit(int64(k))), func() error { return e.recvHooks(ch) }); err != nil {
 			panic(unsupportedErr(err.Error()))
 		}
+	}
+	if e.inl != "" {
+		// positional select hooks of the contract speak about the selects of the function itself, not about a select
+		// inside a helper that is inlined into it (value-anchored recv: hooks above do apply there)
+		return
 	}
 	for k := range x.States {
 		k := k
@@ -2195,7 +2245,7 @@ func (e *Enc) canInline(fn *ssa.Function) bool {
 		for _, ins := range b.Instrs {
 			n++
 			switch ins.(type) {
-			case *ssa.Defer, *ssa.Go, *ssa.Select, *ssa.RunDefers, *ssa.MakeClosure:
+			case *ssa.Defer, *ssa.Go, *ssa.RunDefers, *ssa.MakeClosure:
 				return false
 			}
 		}
